@@ -13,6 +13,9 @@ import "math"
 
 // ---- built-ins of the contract language (interpreted by the verifier; bodies only matter for replay) ----
 
+// specVar is the typed placeholder the verifier substitutes for result names and quantifier binders.
+func specVar[T any](i int) T { var z T; return z }
+
 func iter() int                 { return 0 }
 func allocated() int            { return 0 }
 func old[T any](x T) T          { return x }
@@ -220,4 +223,33 @@ func specDeltasLen(ds []*RecvDelta, n int) int {
 		return specDeltasLen(ds, n-1) + 1
 	}
 	return specDeltasLen(ds, n-1) + 2
+}
+
+// ---- RFC 8888 section 3.1 ----
+
+// specMetricWord: R(1) | ECN(2) | arrival time offset(13).
+func specMetricWord(b CCFeedbackMetricBlock) uint16 {
+	w := uint16(b.ECN&3)<<13 | b.ArrivalTimeOffset&0x1FFF
+	if b.Received {
+		w |= 0x8000
+	}
+	return w
+}
+
+// specMetricDecode: a block with R=0 carries no information (the other 15 bits are ignored).
+func specMetricDecode(w uint16) CCFeedbackMetricBlock {
+	if w&0x8000 == 0 {
+		return CCFeedbackMetricBlock{}
+	}
+	return CCFeedbackMetricBlock{Received: true, ECN: ECN(w >> 13 & 3), ArrivalTimeOffset: w & 0x1FFF}
+}
+
+// specCCBlockLen: SSRC, begin_seq, num_reports, then the metric blocks padded to a 32-bit boundary.
+func specCCBlockLen(n int) int { return 8 + 2*n + 2*(n%2) }
+
+func specCCBlocksLen(bs []CCFeedbackReportBlock, n int) int {
+	if n <= 0 {
+		return 0
+	}
+	return specCCBlocksLen(bs, n-1) + specCCBlockLen(len(bs[n-1].MetricBlocks))
 }
